@@ -53,6 +53,9 @@ type c20Chan struct {
 	excs          []error
 	panicEv       bool
 	closeInActive bool
+	farewell      bool
+	heartbeat     bool
+	feed          func([]byte)
 	slowWrite     int32       // >0: the next transport write stalls for that many milliseconds
 	pendingL      []time.Time // feed instants not yet matched to a passage (reads)
 }
@@ -156,7 +159,21 @@ func (a *c20After) HandleEvent(ctx netty.EventContext, ev netty.Event) {
 	cc, ok := a.ch.checks[g]
 	a.ch.events = append(a.ch.events, c20Event{E: now, C: cc, hasC: ok, kind: kind, order: len(a.ch.events)})
 	doPanic := a.ch.panicEv && len(a.ch.events) == 2
+	heartbeat := a.ch.heartbeat
 	a.ch.mu.Unlock()
+	if heartbeat {
+		if a.ch.read {
+			// an inbound message arrives while the idle event's handler is still busy
+			a.ch.mu.Lock()
+			a.ch.pendingL = append(a.ch.pendingL, time.Now())
+			a.ch.mu.Unlock()
+			a.ch.feed([]byte{'h'})
+			time.Sleep(3 * time.Millisecond)
+		} else {
+			// the usual reaction to a write-idle event: send a heartbeat from the handler
+			ctx.Write([]byte("ping"))
+		}
+	}
 	if doPanic {
 		panic(fmt.Errorf("c20 event handler panic"))
 	}
@@ -166,7 +183,16 @@ func (a *c20After) HandleEvent(ctx netty.EventContext, ev netty.Event) {
 func (a *c20After) HandleInactive(ctx netty.InactiveContext, ex netty.Exception) {
 	a.ch.mu.Lock()
 	a.ch.I = time.Now()
+	farewell := a.ch.farewell
 	a.ch.mu.Unlock()
+	if farewell {
+		// an application says goodbye from its inactive handler: the message passes the idle handler
+		// after the inactive event did, and must not start a new idle period
+		func() {
+			defer func() { recover() }()
+			ctx.Write([]byte("bye"))
+		}()
+	}
 	ctx.HandleInactive(ex)
 }
 
@@ -182,6 +208,9 @@ type c20Reader struct{}
 func (c20Reader) HandleRead(ctx netty.InboundContext, message netty.Message) {
 	var b [1]byte
 	if _, err := message.(io.Reader).Read(b[:]); err != nil {
+		if !ctx.Channel().IsActive() {
+			return // the read that was in flight when the channel was closed completes after inactive
+		}
 		panic(err)
 	}
 }
@@ -239,6 +268,8 @@ func c20Channel(c *core.Ctx, id string, idx int, idle time.Duration) {
 	rng := c.Rand("chan", idx)
 	st := &c20Chan{id: id, read: idx%2 == 0, idle: idle, checks: map[int64]time.Time{}, panicEv: rng.Intn(5) == 0}
 	st.closeInActive = idx%10 == 7 || idx%10 == 2
+	st.farewell = idx%4 == 1                                      // write-idle channels (odd idx)
+	st.heartbeat = idx%5 == 3                                     // both kinds
 	slowWriteTrial := !st.read && idx%3 == 0 && !st.closeInActive // sync-mode write-idle channels: one write stalls in the transport across the timer's expiry
 	var h netty.Handler
 	if st.read {
@@ -263,6 +294,7 @@ func c20Channel(c *core.Ctx, id string, idx int, idle time.Duration) {
 	rig := mon.NewRig(mon.RigOpts{Mode: mon.Mode(idx % 3), Queue: 8, NoPark: true, NoHooks: true,
 		Handlers: []netty.Handler{before, h, after, c20Reader{}}})
 	defer rig.Dispose()
+	st.feed = rig.T.FeedBytes
 	rig.T.OnOp = func(kind string, phase int) {
 		if kind == mon.OpWrite && phase == 0 {
 			if ms := atomic.SwapInt32(&st.slowWrite, 0); ms > 0 {
@@ -425,8 +457,14 @@ func c20Channel(c *core.Ctx, id string, idx int, idle time.Duration) {
 	// panicking event handler
 	if st.panicEv && len(st.events) >= 2 {
 		c.Count("panicking_event_handlers", 1)
-		if len(st.excs) != 1 {
-			viol("event-handler-panic-not-routed", fmt.Sprintf("a panic in an idle-event handler produced %d exceptions", len(st.excs)))
+		routed := 0
+		for _, e := range st.excs {
+			if e != nil && e.Error() == "c20 event handler panic" {
+				routed++ // other exceptions (e.g. a heartbeat write failing on a closing channel) are not the subject
+			}
+		}
+		if routed != 1 {
+			viol("event-handler-panic-not-routed", fmt.Sprintf("a panic in an idle-event handler was delivered %d times as an exception", routed))
 		}
 	}
 	// bounded progress
@@ -439,7 +477,13 @@ func c20Channel(c *core.Ctx, id string, idx int, idle time.Duration) {
 			viol("idle-events-stop-while-idleness-persists", fmt.Sprintf("only %d idle events in %v of silence, at least %d required", evInSilence, silence, need))
 		}
 	}
-	c.Sig(st.read, pattern, phase/(idle/4+1), st.panicEv, evInSilence)
+	c.Sig(st.read, pattern, phase/(idle/4+1), st.panicEv, evInSilence, st.farewell, st.heartbeat)
+	if st.heartbeat {
+		c.Count("channels_with_message_during_callback", 1)
+	}
+	if st.farewell && !st.read {
+		c.Count("channels_with_farewell_write_after_inactive", 1)
+	}
 	if c.WantSample() {
 		c.Sample(map[string]interface{}{"case": id, "handler": map[bool]string{true: "read-idle", false: "write-idle"}[st.read], "gaps": pattern, "events": len(st.events), "events_in_silence": evInSilence, "callbacks": len(st.allCheck), "close_phase": phase.String()})
 	}
